@@ -24,7 +24,8 @@ ASSUMPTIONS = ["traces contain no addresses: graph instances are numbered per ru
                "of executors overlap (concurrent building is not claimed by the code base: GraphRuntimeRegistry is unsynchronised)",
                "g++-12 -O1 (and -fsanitize=thread for the thorough tier) build of the working tree with harness-side shims"]
 FLOORS = {"context_comparisons": {"quick": 500, "thorough": 4500}, "reused_builder_runs": {"quick": 100, "thorough": 1200},
-          "concurrent_case_runs": {"quick": 150, "thorough": 2000}, "global_state_reads": {"quick": 500, "thorough": 3000}, "captured_error_values": {"quick": 30, "thorough": 200}}
+          "concurrent_case_runs": {"quick": 150, "thorough": 2000}, "global_state_reads": {"quick": 500, "thorough": 3000}, "captured_error_values": {"quick": 15, "thorough": 200},
+          "polymorphic_values_compared": {"quick": 60, "thorough": 400}}
 
 
 def gen_cases(rng, n, seed):
@@ -34,8 +35,17 @@ def gen_cases(rng, n, seed):
     from .c11 import gen_case11
     from .c20 import gen_case20
     for k in range(n):
-        r = k % 9
-        if r == 8:
+        r = k % 10
+        if r == 9:
+            # a polymorphic bundle family registered lazily (after whatever was wired before in this process) carried
+            # through TS<abstract base>
+            from .prog import Case
+            c = Case(f"c07_{seed}_{k}", 0, 10)
+            c.scripts[1] = [(t, rng.randint(1, 99)) for t in range(rng.choice([3, 6, 10]))]
+            c.opts["poly"] = 1
+            c.graphs["main"] = []
+            c.meta["staged"] = 1            # (no reused-builder variant: eval_node builds its own executor)
+        elif r == 8:
             # captured errors with differing levels of requested detail on the same node definitions
             from .c15 import gen_pair
             pr = None
@@ -140,6 +150,7 @@ def main(tier, seed, replay):
     by_name = {c.name: c for c in cases}
     counters["global_state_reads"] = sum(t.count("\nu.gs ") for t in ref.values())
     counters["captured_error_values"] = sum(t.count("\nu.err ") for t in ref.values())
+    counters["polymorphic_values_compared"] = sum(t.count("\nPOLY ") for t in ref.values())
 
     def compare(ctx, got, names=None):
         for name in (names or ref):
